@@ -167,12 +167,12 @@ fn timeouts_fit(m: &MachineSpec) -> bool {
 impl Prop for C20 {
     type Case = Case;
     const ID: &'static str = "C20";
-    const RULE: &'static str = "Run cases: 0..=6 machines with probability-1 transitions, constant distributions and clock-independent limits (blocking fractions 0) x 1..=30 batches of 0..=8 events over the 10 event types with known and unknown machine ids x framework padding fraction; the C API's output buffer sits between canary regions and is pre-filled with a pattern. Start cases: newline-separated pieces (valid machines, arbitrary text, empty pieces), LF / CRLF separators, trailing newline, non-UTF-8 bytes, NaN and out-of-range fractions. Null cases: each of out / instance / events / actions / count null, also together with an empty batch. Clock cases (the C API reads the clock itself): a machine or framework blocking-fraction limit of 0.5, BlockingBegin, a real sleep of 20-40 ms, BlockingEnd, NormalSent (blocked share > 0.6: no action may be written), a real sleep of 120-200 ms, NormalSent (blocked share < 0.4: the BlockOutgoing must be written); a case is judged only when the measured bounds clear the limit by that margin. Non-trivial: a batch that produced >=1 written action with bypass != replace, or a start/null error-path case. Distinct = hash of the case.";
+    const RULE: &'static str = "Run cases: 0..=6 machines with probability-1 transitions, constant distributions and clock-independent limits (blocking fractions 0) x 1..=30 batches of 0..=8 events (profile long_batch: 1..=4 batches of up to 1100 events) over the 10 event types with known and unknown machine ids x framework padding fraction; the C API's output buffer sits between canary regions and is pre-filled with a pattern. Start cases: newline-separated pieces (valid machines, arbitrary text, empty pieces), LF / CRLF separators, trailing newline, non-UTF-8 bytes, NaN and out-of-range fractions. Null cases: each of out / instance / events / actions / count null, also together with an empty batch. Clock cases (the C API reads the clock itself): a machine or framework blocking-fraction limit of 0.5, BlockingBegin, a real sleep of 20-40 ms, BlockingEnd, NormalSent (blocked share > 0.6: no action may be written), a real sleep of 120-200 ms, NormalSent (blocked share < 0.4: the BlockOutgoing must be written); a case is judged only when the measured bounds clear the limit by that margin. Non-trivial: a batch that produced >=1 written action with bypass != replace, or a start/null error-path case. Distinct = hash of the case.";
 
     fn profiles(tier: Tier) -> Vec<Profile> {
         match tier {
-            Tier::Quick => vec![prof("run", 48_000), prof("start", 18_000), prof("null", 4_500), prof("clock", 64)],
-            Tier::Thorough => vec![prof("run", 700_000), prof("start", 250_000), prof("null", 50_000), prof("clock", 640)],
+            Tier::Quick => vec![prof("run", 48_000), prof("start", 18_000), prof("null", 4_500), prof("clock", 64), prof("long_batch", 3_000)],
+            Tier::Thorough => vec![prof("run", 700_000), prof("start", 250_000), prof("null", 50_000), prof("clock", 640), prof("long_batch", 40_000)],
         }
     }
 
@@ -195,6 +195,26 @@ impl Prop for C20 {
                     batches,
                     trailing_newline,
                 })
+                .boxed(),
+            "long_batch" => (1usize..=4)
+                .prop_flat_map(move |n| {
+                    // batches far longer than any internal chunk size a wrapper might use
+                    let hp = HistParams { max_batch: 8, ..HistParams::default() };
+                    (
+                        proptest::collection::vec(machine(&mp).prop_map(clock_independent), n..=n),
+                        prop_oneof![Just(0.0), select(vec![0.5, 1.0, 0.25])],
+                        proptest::collection::vec(
+                            prop_oneof![
+                                3 => proptest::collection::vec(event(n, &hp), 60..=140),
+                                2 => proptest::collection::vec(event(n, &hp), 250..=270),
+                                1 => proptest::collection::vec(event(n, &hp), 500..=1100),
+                                2 => proptest::collection::vec(event(n, &hp), 0..=3),
+                            ],
+                            1..=4,
+                        ),
+                    )
+                })
+                .prop_map(|(machines, pf, batches)| Case::Run { machines, padding_frac: Fx(pf), batches, trailing_newline: false })
                 .boxed(),
             "start" => {
                 let piece = prop_oneof![
@@ -343,6 +363,9 @@ impl Prop for C20 {
                         }
                         if got.len() >= 2 {
                             hits.push("two_or_more_actions");
+                        }
+                        if batch.len() > 256 && !got.is_empty() {
+                            hits.push("action_from_a_batch_longer_than_256");
                         }
                         if got.iter().any(|g| matches!(g, Flat::Cancel { .. })) {
                             hits.push("cancel_written");
@@ -643,6 +666,7 @@ impl Prop for C20 {
     fn required_classes() -> Vec<&'static str> {
         vec![
             "asymmetric_flags_written",
+            "action_from_a_batch_longer_than_256",
             "two_or_more_actions",
             "cancel_written",
             "subsecond_duration",
